@@ -283,7 +283,7 @@ class FStep(ScriptedMixin, Step):
         noemit = s.get('noemit') or []
         schema['acc'] = {
             v: {'_default': 0, '_emit': v not in noemit} for v in s.get('vars', [])}
-        if s.get('kill') or s.get('gen'):
+        if s.get('kill') or s.get('gen') or s.get('watch'):
             schema['world'] = {'*': {'alive': {'_default': 1, '_emit': True}}}
         return _perm_schema(self, schema)
 
@@ -291,6 +291,9 @@ class FStep(ScriptedMixin, Step):
         s = self.spec
         seen = [states['acc'].get(v) for v in s.get('vars', [])]
         seen += [states['tok'].get(r) for r in s.get('reads', [])]
+        if s.get('watch'):
+            # a watcher folds the compartments it sees into its token
+            seen.append(sorted(states['world'].keys()))
         token = [s['name'], k, _digest(seen)]
         up = {'tok': {s['name']: token}}
         kill = s.get('kill')
